@@ -85,6 +85,7 @@ func (g *Gen) init() {
 	g.oblCount = map[string]int{}
 	g.nameVals = map[string][]ssa.Value{}
 	g.UsedSpecs = map[string]bool{}
+	g.rangeAssumed = map[string]bool{}
 	g.declare("str_empty", "Str")
 	g.assume(sEq(app("slen", "str_empty"), g.M.IxLit(0)))
 	g.strlits[""] = "str_empty"
@@ -470,6 +471,16 @@ func (g *Gen) loopEnv(l *Loop, st *State, subst map[ssa.Value]string) *SpecEnv {
 	env := g.baseEnv()
 	env.st = st
 	env.old = g.entry
+	for _, in := range l.Header.Instrs {
+		if nx, ok := in.(*ssa.Next); ok && !nx.IsString {
+			if rg, ok := nx.Iter.(*ssa.Range); ok {
+				if mt, ok := rg.X.Type().Underlying().(*types.Map); ok {
+					env.iter = g.val(rg)
+					env.iterKeySort = g.L.CellSort(mt.Key())
+				}
+			}
+		}
+	}
 	names := map[string]bool{}
 	for n := range g.nameVals {
 		names[n] = true
@@ -726,6 +737,9 @@ func (g *Gen) prepass() {
 			g.mapVal(g.entry, ks, vs)
 			g.mapCard(g.entry)
 			g.mapVis(g.entry, ks)
+			if et, ok := deref(u.Elem()); ok && g.isHeapType(et) {
+				g.heapFor("GOwn")
+			}
 			reg(u.Key(), depth+1)
 			reg(u.Elem(), depth+1)
 		case *types.Signature:
